@@ -16,7 +16,7 @@ opti.set_initial(coeff @ B[:,k], value) on the sampled spline and swallows the r
 "Initialization failed since variables ... are free" error in its blanket `except`.
 """
 import sys
-sys.path.insert(0, '/tmp/nx_pydeps')   # networkx, only for the SplineMethod reference run
+sys.path.insert(0, '/verif/pydeps')   # networkx, only for the SplineMethod reference run
 import numpy as np, casadi as ca
 from rockit import Ocp, DirectCollocation, SplineMethod
 
